@@ -59,6 +59,9 @@ static std::vector<StreamCase> corpus()
     v.back().forced = { int(hs.size() + features.size()) };
     add("short+close-only", hs, close);
     add("decl+utf8+entities+close", h1, utf8text + entities + utf8attr + close);
+    // peers that write a line break after the closing tag (and between stanzas)
+    add("short+stanza+close+newline", hs, ascii + H("\n") + iq + close + H("\n"));
+    add("short+close+crlf", hs, close + H("\r\n"));
     return v;
 }
 
